@@ -27,3 +27,21 @@ package prelude
 
 //@ assume func golang.org/x/exp/slices.Contains
 //@   ensures result <==> (exists i int :: 0 <= i && i < len(arg0) && arg0[i] == arg1)
+
+// keep-common TimeCache (read: Add is an atomic test-and-set under the cache
+// mutex, returning whether this call inserted the item; Has only reads;
+// Sweep only removes expired items). The ghost variables record the atomic
+// decisions taken on the current call path.
+//@ ghost cacheAdds int
+//@ ghost cacheLastAdd bool
+//@ ghost cacheLastKey string
+//@ ghost cacheLastCache ref
+//@ assume func github.com/keep-network/keep-common/pkg/cache.TimeCache.Add
+//@   modifies ghost.cacheAdds, ghost.cacheLastAdd, ghost.cacheLastKey, ghost.cacheLastCache
+//@   ensures ghost.cacheAdds == old(ghost.cacheAdds) + 1 && ghost.cacheLastAdd == result && ghost.cacheLastKey == item && ghost.cacheLastCache == recv
+//@ ghost cacheSeen bool
+//@ assume func github.com/keep-network/keep-common/pkg/cache.TimeCache.Has
+//@   modifies ghost.cacheSeen
+//@   ensures ghost.cacheSeen == (old(ghost.cacheSeen) || result)
+//@ assume func github.com/keep-network/keep-common/pkg/cache.TimeCache.Sweep
+//@   ensures true
